@@ -10,6 +10,7 @@ import (
 	"crypto/x509"
 	"crypto/x509/pkix"
 	"fmt"
+	"io"
 	"math/big"
 	"net"
 	"strings"
@@ -131,6 +132,9 @@ func runFrame(t *testing.T, c *FrameCase) (term string, viols []vh.Violation, ta
 			r.bufs = append(r.bufs, p.Buf)
 		}
 		done <- r
+		// TLSTransport.handle just returns; the kernel's socket buffers keep absorbing what the peer writes.
+		// The in-memory pipe has no buffer, so drain it to let the writers finish.
+		io.Copy(io.Discard, server)
 	}()
 
 	var payloads [][]byte
@@ -156,7 +160,16 @@ func runFrame(t *testing.T, c *FrameCase) (term string, viols []vh.Violation, ta
 		}(g)
 	}
 	close(startc)
-	wg.Wait()
+	wdone := make(chan struct{})
+	go func() { wg.Wait(); close(wdone) }()
+	select {
+	case <-wdone:
+	case <-time.After(60 * time.Second): // never expected; do not hang the check
+		viols = append(viols, vh.Violation{Key: "tls-writers-stuck", What: "concurrent writePacket calls did not finish within 60 s", Case: Case{Kind: "frame", Frame: c}})
+		c1.Close()
+		c2.Close()
+		<-wdone
+	}
 	client.Close()
 	var r rcv
 	select {
